@@ -225,7 +225,6 @@ def replay(payload):
 
 
 KNOWN_CLAUSES = {
-    "C09-odd-centre": lambda c: c.endswith("/odd") and ("shift theorem" in c or "centred delta" in c or "Gaussian" in c),
     "C09-irft-scale": lambda c: "irft(rft(x))=x" in c,
     "C09-irft2-shape": lambda c: "irft2(rft2(m))=m" in c,
 }
@@ -237,9 +236,6 @@ def classify(v, known):
 
 
 def replay_known(known):
-    if known["id"] == "C09-odd-centre":
-        e = numpy.zeros(5); e[2] = 1.0
-        return _err(ftm.ft(e, 1.0), numpy.ones(5, dtype=complex)) > 1e-9
     if known["id"] == "C09-irft-scale":
         x = numpy.array([1.0, 2.0, -1.0, 0.5])
         return _err(ftm.irft(ftm.rft(x, 1.0), 0.25), x) > 1e-9
